@@ -38,7 +38,9 @@ type engineB struct {
 }
 
 var engineBProps = map[string]*engineB{
-	"C17": {design: "4/C17", scenPkgs: []string{"verif/scenarios/c17"}},
+	"C10": {design: "4/C10"},
+	"C11": {design: "4/C11"},
+	"C17": {design: "4/C17"},
 }
 
 func env() []string {
